@@ -67,13 +67,13 @@ from mc.result import Result
 
 ID = "C08"
 LEVEL = "exploration"
-RULE = ("every content of <= 2 lines, each line d0 t1 d1 t2 d2 [t3 d3] with t_i from the token alphabet T (32 tokens: IPv4 "
-        "incl. prefix-related/containing/loopback; short/FQDN/other hosts of web01.corp.test incl. a mixed-case hyphenated "
-        "label; MACs incl. all-zero/broadcast and a 00/ff-only one that is neither; keywords incl. two with regex "
+RULE = ("every content of <= 2 lines, each line d0 t1 d1 t2 d2 [t3 d3] with t_i from the token alphabet T (34 tokens: IPv4 "
+        "incl. prefix-related/containing/loopback; host tokens derived from the system host name (short, FQDN, other/dotted/mixed-case-label hosts of the domain, a "
+        "prefix-related short name, a host of the parent domain); MACs incl. all-zero/broadcast and a 00/ff-only one that is neither; keywords incl. two with regex "
         "metacharacters; plain/regex/POSIX/backslash-class/backslash-anchor pattern words; 6 password forms incl. tab; a "
         "neutral word) and d_i from the delimiter set D (13 incl. tab and the line boundary) extended by the word "
         "character 'x' (after IPv4 also '_') and, between tokens, by no delimiter at all; x every configuration with <= 1 "
-        "deviation from everything-on (incl. an allow-list); x entry point; plus keyword lists with internal structure "
+        "deviation from everything-on (incl. an allow-list and system host names of 1, 2, 4, 5 labels); x entry point; plus keyword lists with internal structure "
         "(12 entries, prefixes, substitute look-alikes), the empty exclusion pattern, the keep-width paths. A case is "
         "non-trivial when it holds >= 2 sensitive tokens and the cleaner actually rewrote or dropped something")
 ASSUMPTIONS = [
@@ -89,6 +89,35 @@ ASSUMPTIONS = [
 FQDN = "web01.corp.test"
 SHORT = "web01"
 DOMAIN = "corp.test"
+# The system host name is a dimension of the configuration: 2, 3 (default), 4 and 5 labels, a short name with a hyphen
+# and a digit, and the bare name without a domain.  The host tokens are derived from it (host_profile / host_text).
+FQDN_VARIANTS = ["web01.test", "node7.lab.corp.test", "node-7.a.lab.corp.test"]
+HOST_ROLES = ["@short", "@fqdn", "@other", "@deep", "@mixed", "@prefix", "@parent"]
+
+
+def host_profile(fqdn):
+    """(short name, domain or None) as the statement reads them: the first label / everything after it"""
+    labels = fqdn.split(".")
+    return labels[0], (".".join(labels[1:]) or None)
+
+
+def host_text(role, fqdn):
+    """The text of a host token for the system host name `fqdn`:
+      @short  the short name alone            @fqdn   the fully-qualified name
+      @other  another host of the domain      @deep   one with a dotted label      @mixed  one with an upper-case/hyphen/digit label
+      @prefix a host of the domain whose short name has the system's short name as a prefix
+      @parent a host of the PARENT domain (not in the system's domain: nothing is demanded for it)
+    For the bare name the tokens are spelled as if the domain were corp.test (only the bare name in them is sensitive)."""
+    short, domain = host_profile(fqdn)
+    dom = domain or DOMAIN
+    if role == "@short":
+        return short
+    if role == "@fqdn":
+        return short + "." + dom
+    if role == "@parent":
+        up = dom.split(".", 1)[1] if "." in dom else "example"
+        return "db." + up
+    return {"@other": "db.", "@deep": "a.b.", "@mixed": "Db-2.", "@prefix": short + "2."}[role] + dom
 # the last two read differently as regular expressions than as literals: a keyword is a literal, not a pattern
 KEYWORDS = ["SECRETKW", "kw-1", "kw+1", "srv[1]"]
 # configured exclusion patterns and the oracle's own, independently written matcher for each
@@ -111,7 +140,7 @@ TOKENS = (
     [["ip", t] for t in ("10.1.1.1", "10.1.1.10", "110.1.1.1", "192.168.0.254", "255.255.255.255")]
     + [["lo", "127.0.0.1"]]
     # the last one: another host of the domain (domain spelled as configured) whose LABEL has upper case, '-', a digit
-    + [["host", t] for t in (SHORT, FQDN, "db.corp.test", "a.b.corp.test", "Db-2.corp.test")]
+    + [["host", r] for r in HOST_ROLES]          # resolved per system host name by _tok()
     # the third is made of 00/ff octets only but is neither all-zero nor broadcast: it must be obfuscated
     + [["mac", t] for t in ("aa:bb:cc:dd:ee:ff", "AA-BB-CC-DD-EE-FF", "00:ff:00:ff:00:ff")]
     + [["mac0", t] for t in ("00:00:00:00:00:00", "ff:ff:ff:ff:ff:ff")]
@@ -161,6 +190,8 @@ def configs():
         out.append(dict(DEFAULT_CFG, no_obf=[n]))
     out.append(dict(DEFAULT_CFG, pat="plain"))
     out.append(dict(DEFAULT_CFG, fqdn=SHORT))
+    for f in FQDN_VARIANTS:
+        out.append(dict(DEFAULT_CFG, fqdn=f))
     out.append(dict(DEFAULT_CFG, allow=1))          # an allow-list is passed (clean_content / clean_file only)
     return out
 
@@ -181,14 +212,19 @@ BOUNDS = {
                                    "(after IPv4 also '_'); clean_content",
               "pairs_deviation_cfgs": "(d0,d2) in {boundary, space, ':'} diagonal (+ boundary/'x','_' after IPv4), d1 in "
                                       "{space, ':', '-', ''}; clean_content",
-              "singles_all_cfgs": "d0,d2 in full D (13) + 'x' via clean_content(list) and clean_content(str); d0,d2 in D_RED "
+              "system_host_name": "default web01.corp.test; deviations: bare web01, 2 / 4 / 5 labels (web01.test, node7.lab.corp.test, "
+                                  "node-7.a.lab.corp.test); host tokens derived per name (short, fqdn, other / dotted-label / "
+                                  "mixed-case-label host of the domain, prefix-related short name, host of the parent domain); "
+                                  "in these configurations only lines holding a host token are enumerated",
+              "singles_all_cfgs": "d0,d2 in full D (13) + 'x' via clean_content(list) (clean_content(str): default cfg full, "
+                                  "deviations small set); d0,d2 in D_RED "
                                   "(default cfg) / {boundary, space, ':'} (deviations) + word neighbours via clean_file, "
                                   "TextFileProvider.write, DatasourceProvider.write",
               "pairs_file_paths": "d0=d2=line boundary, d1 in D_RED minus boundary + '' (default cfg) / {space} (deviations); "
                                   "clean_file and provider write",
               "two_lines_default_cfg": "lines single-token with (d0,d2) in {(boundary,boundary),(space,':')}, IPv4+'x'/'_', the "
                                        "blank line; clean_content, two calls on one Cleaner, clean_file, provider write",
-              "host_triples_default_cfg": "5 host tokens ^3, outer diagonal {boundary, space, ':'}, inner {space, ':', '-', '', '_'}",
+              "host_triples_default_cfg": "6 host tokens (all roles but the parent-domain host) ^3, outer diagonal {boundary, space, ':'}, inner {space, '-', '', '_'}",
               "width": "keep-width paths (width=True, file / spec named netstat_-neopa): singles over D_RED, pairs with an address",
               "patvariants": "pattern list [''] plain and regex: singles and two-line contents, four entry points",
               "kwlists": "8 keyword lists with internal structure: singles and pairs of their keywords",
@@ -197,11 +233,12 @@ BOUNDS = {
                  "pairs_default_cfg": "d0,d2 in full D (13) + 'x' (after IPv4 also '_'), d1 in full D minus boundary + {'', 'x'}; "
                                       "clean_content",
                  "pairs_deviation_cfgs": "d0,d2 in D_RED (+ 'x','_' after IPv4), d1 in full D minus boundary + ''; clean_content",
+                 "system_host_name": "as in quick (host-token lines only in the host-name configurations)",
                  "singles_all_cfgs": "d0,d2 in full D + 'x' via all six entry points",
                  "pairs_file_paths": "d0=d2=line boundary, d1 in full D minus boundary + ''; clean_file and provider write; all cfgs",
                  "two_lines_default_cfg": "lines single-token with d0,d2 in {boundary, space, ':'}, IPv4+'x'/'_', the blank line; "
                                           "four entry points",
-                 "triples_default_cfg": "all 32^3 token triples, d0,d3 in {boundary, space, ':'} (+ 'x','_' after IPv4), d1,d2 in "
+                 "triples_default_cfg": "all 34^3 token triples, d0,d3 in {boundary, space, ':'} (+ 'x','_' after IPv4), d1,d2 in "
                                         "D_RED minus boundary + ''; clean_content",
                  "width/patvariants/kwlists": "as in quick",
                  "D_RED": D_RED, "D_FULL": D_FULL},
@@ -211,19 +248,21 @@ CAP_S = {"quick": 120, "thorough": 2400}
 
 # ---- building a case -------------------------------------------------------------------------
 
-def _tok(idx, pos):
+def _tok(idx, pos, fqdn=FQDN):
     k, t = TOKENS[idx]
+    if k == "host":
+        return [k, host_text(t, fqdn)]
     if k == "pw":
         s = SECRETS[pos]
         return [k, t % s, s]
     return [k, t]
 
 
-def mk_line(tidx, delims, pos0=0):
+def mk_line(tidx, delims, pos0=0, fqdn=FQDN):
     """[d0, tok, d1, tok, ..., dn] - the JSON form of one line."""
     out = [delims[0]]
     for i, ti in enumerate(tidx):
-        out.append(_tok(ti, pos0 + i))
+        out.append(_tok(ti, pos0 + i, fqdn))
         out.append(delims[i + 1])
     return out
 
@@ -374,7 +413,13 @@ def run_path(path, cfg, in_lines, scratch):
 # ---- oracle ----------------------------------------------------------------------------------
 
 _IPV4_SHAPED = re.compile(r"(?<![\w.])[0-9]{1,3}\.[0-9]{1,3}\.[0-9]{1,3}\.[0-9]{1,3}(?![0-9.])")
-_HOST_IN_DOMAIN = re.compile(r"[A-Za-z0-9_-]\.corp\.test")
+_HOST_IN_DOMAIN = {}
+
+
+def _host_in_domain(domain):
+    if domain not in _HOST_IN_DOMAIN:
+        _HOST_IN_DOMAIN[domain] = re.compile(r"[A-Za-z0-9_-]\." + re.escape(domain) + r"(?![A-Za-z0-9_.-])")
+    return _HOST_IN_DOMAIN[domain]
 
 
 def _matches(cfg, line):
@@ -433,11 +478,11 @@ def _demanded(kind, before, after):
 HOST_GLUE = {"-": "hyphen", "": "glued", "x": "glued", "_": "glued"}     # characters of the host-name pattern's class
 
 
-def _is_domain_host(x):
-    return (not isinstance(x, str)) and x[0] == "host" and x[1].endswith("." + DOMAIN)
+def _is_domain_host(x, domain=DOMAIN):
+    return (not isinstance(x, str)) and x[0] == "host" and bool(domain) and x[1].endswith("." + domain)
 
 
-def _explainable(st, ei, kind, before, after):
+def _explainable(st, ei, kind, before, after, domain=DOMAIN):
     """Structural position (a fact about the INPUT line only) that a recorded defect of the tree explains; "" when
     there is none.  Used as the narrow feature known findings match on, never to suppress anything here.
       mac : the address is directly preceded / followed by ':' or '-'  -> that character (mac.py look-around);
@@ -455,11 +500,11 @@ def _explainable(st, ei, kind, before, after):
         if ei >= 2 and st[ei - 1] == "" and st[ei - 2][0] == "kw" and st[ei - 2][1][-1:] not in WORD:
             return "glued-after-keyword"          # ...] + MAC: `keywordN` ends with a digit, the look-behind rejects it
         return ""
-    if kind == "host" and _is_domain_host(st[ei]):
+    if kind == "host" and _is_domain_host(st[ei], domain):
         partners = []
-        if ei >= 2 and st[ei - 1] in HOST_GLUE and _is_domain_host(st[ei - 2]):
+        if ei >= 2 and st[ei - 1] in HOST_GLUE and _is_domain_host(st[ei - 2], domain):
             partners.append((ei - 2, HOST_GLUE[st[ei - 1]]))
-        if ei + 2 < len(st) and st[ei + 1] in HOST_GLUE and _is_domain_host(st[ei + 2]):
+        if ei + 2 < len(st) and st[ei + 1] in HOST_GLUE and _is_domain_host(st[ei + 2], domain):
             partners.append((ei + 2, HOST_GLUE[st[ei + 1]]))
         for pi, how in partners:
             for j in range(1, min(ei, pi), 2):
@@ -535,11 +580,21 @@ def oracle(cfg, structs, in_lines, out_lines, cleaner, path="content"):
                     if not planted:
                         v.append(("obfuscation:ipv4-unissued-address", "every IPv4 address in the output is loopback "
                                   "or a substitute listed by mapping()", raw, {"kind": "ip", "address": "not-planted"}))
-    if hn_on and cfg["fqdn"] != SHORT:
-        if _HOST_IN_DOMAIN.search(masked) and not any(
+    short, domain = host_profile(cfg["fqdn"])
+    if hn_on and domain:
+        if _host_in_domain(domain).search(masked) and not any(
                 t[0] == "host" and t[1] in masked for st in structs for t in st if not isinstance(t, str)):
-            v.append(("obfuscation:hostname-survives", "no host of the domain %s" % DOMAIN, raw,
+            v.append(("obfuscation:hostname-survives", "no host of the domain %s" % domain, raw,
                       {"kind": "host", "how": "partially-replaced"}))
+
+    def host_needle(t):
+        """what must not occur for a host token: the token itself when it is a host of the system's domain (the FQDN
+        included), else the system's short name if the token contains it, else nothing (a host of another / of the
+        parent domain is not the statement's business)"""
+        if domain and t.endswith("." + domain):
+            return t
+        return short if short in t else None
+    planted_hosts = set(host_needle(t[1]) for st in structs for t in st if not isinstance(t, str) and t[0] == "host")
 
     # -- per planted token.  Survivors are counted in the output line that derives from the token's own input line
     #    (when the line count is off - already reported above - in the whole output).  The same text may be planted
@@ -560,13 +615,13 @@ def oracle(cfg, structs, in_lines, out_lines, cleaner, path="content"):
             p += len(t)
             if kind == "pw":
                 needle = x[2]
-            elif kind == "host" and cfg["fqdn"] == SHORT:
-                needle = SHORT if SHORT in t else None        # without a domain only the bare name is sensitive
+            elif kind == "host":
+                needle = host_needle(t)
             else:
                 needle = t
             scope = kept.index(li) if (aligned and li in kept) else (None if not aligned else -1)
             occs.append({"li": li, "ei": ei, "st": st, "kind": kind, "t": t, "needle": needle, "before": before,
-                         "after": after, "scope": scope, "why": _explainable(st, ei, kind, before, after),
+                         "after": after, "scope": scope, "why": _explainable(st, ei, kind, before, after, domain),
                          "demanded": _demanded(kind, before, after)})
 
     def scope_text(scope):
@@ -578,8 +633,11 @@ def oracle(cfg, structs, in_lines, out_lines, cleaner, path="content"):
             # the address itself, not a stretch of a longer dotted number (10.1.1.1 inside 10.1.1.10 / 110.1.1.1)
             return len(re.findall(r"(?<![0-9.])" + re.escape(needle) + r"(?![0-9])", txt))
         n = txt.count(needle)
-        if needle == SHORT and cfg["fqdn"] != SHORT:
-            n -= txt.count(FQDN)                # the bare name inside a surviving FQDN belongs to the FQDN token
+        if kind == "host" and needle == short:
+            # the short name inside a surviving longer planted host name belongs to that token
+            for h in planted_hosts:
+                if h and h != short and short in h:
+                    n -= txt.count(h) * h.count(short)
         return n
 
     survivors = set()
@@ -696,6 +754,16 @@ def _is_ip(ti):
     return TOKENS[ti][0] == "ip"
 
 
+def _is_host(ti):
+    return TOKENS[ti][0] == "host"
+
+
+def _host_only(cfg):
+    """The configurations that differ from the default in the system host name only: lines without a host token behave
+    exactly as under the default configuration, so only lines holding at least one host token are enumerated there."""
+    return cfg["fqdn"] != FQDN
+
+
 def _left(base):
     """choices for d0: the given delimiters plus a word character"""
     return list(base) + WORD_NB
@@ -809,22 +877,29 @@ def run_unit(unit, tier):
 
         if part == "pairs":
             cfg = cfgs[unit["cfg"]]
+            fq, ho = cfg["fqdn"], _host_only(cfg)
             for t1 in unit["t1"]:
                 for t2 in range(NT):
+                    if ho and not (_is_host(t1) or _is_host(t2)):
+                        continue
                     for d0, d1, d2 in _pair_space(tier, unit["cfg"], t1, t2):
-                        go("content", cfg, [mk_line([t1, t2], [d0, d1, d2])])
+                        go("content", cfg, [mk_line([t1, t2], [d0, d1, d2], 0, fq)])
             t1 = unit["t1"][0]
-            res.samples.append({"path": "content", "cfg": cfg, "lines": [mk_line([t1, (t1 + 7) % NT], [" ", ":", ""])]})
+            res.samples.append({"path": "content", "cfg": cfg, "lines": [mk_line([t1, 7], [" ", ":", ""], 0, fq)]})
         elif part == "singles":
             cfg = cfgs[unit["cfg"]]
             files = ("file",) if cfg.get("allow") else ("file", "write", "dswrite")
             small = set((D_RED if unit["cfg"] == 0 else D_MIN) + IPV4_RIGHT)
+            fq, ho = cfg["fqdn"], _host_only(cfg)
             for t1 in range(NT):
+                if ho and not _is_host(t1):
+                    continue
                 for d0 in _left(D_FULL):
                     for d2 in _right(t1, D_FULL):
-                        st = [mk_line([t1], [d0, d2])]
+                        st = [mk_line([t1], [d0, d2], 0, fq)]
                         go("content", cfg, st)
-                        go("content-str", cfg, st)
+                        if tier == "thorough" or unit["cfg"] == 0 or (d0 in small and d2 in small):
+                            go("content-str", cfg, st)     # differs from the list form in one branch only
                         if tier == "thorough" or (d0 in small and d2 in small):
                             for path in files:
                                 go(path, cfg, st)
@@ -834,15 +909,18 @@ def run_unit(unit, tier):
             files = ("file",) if cfg.get("allow") else ("file", "write")
             base = D_FULL[1:] if tier == "thorough" else (D_RED[1:] if unit["cfg"] == 0 else [" "])
             glue = [""] if (tier == "thorough" or unit["cfg"] == 0) else []
+            fq, ho = cfg["fqdn"], _host_only(cfg)
             for t1 in range(NT):
                 for t2 in range(NT):
+                    if ho and not (_is_host(t1) or _is_host(t2)):
+                        continue
                     for d1 in _inner(t1, base, glue=glue):
                         for d2 in [""] + (IPV4_RIGHT if _is_ip(t2) else []):
-                            st = [mk_line([t1, t2], ["", d1, d2])]
+                            st = [mk_line([t1, t2], ["", d1, d2], 0, fq)]
                             for path in files:
                                 go(path, cfg, st)
             res.samples.append({"path": "write" if "write" in files else "file", "cfg": cfg,
-                                "lines": [mk_line([0, 11], ["", ":", ""])]})
+                                "lines": [mk_line([0, 7], ["", ":", ""], 0, fq)]})
         elif part == "twolines":
             cfg = cfgs[0]
             singles = _two_line_singles(tier)
@@ -863,11 +941,11 @@ def run_unit(unit, tier):
                                 go("content", cfg, [mk_line([t1, t2, t3], [d0, d1, d2, d3])])
         elif part == "hosttriples":
             cfg = cfgs[0]
-            hosts = [i for i, t in enumerate(TOKENS) if t[0] == "host"]
+            hosts = [i for i, t in enumerate(TOKENS) if t[0] == "host" and t[1] != "@parent"]
             for t1, t2, t3 in itertools.product(hosts, repeat=3):
                 for d0, d3 in DIAG3:
-                    for d1 in (" ", ":", "-", "", "_"):
-                        for d2 in (" ", ":", "-", "", "_"):
+                    for d1 in (" ", "-", "", "_"):
+                        for d2 in (" ", "-", "", "_"):
                             go("content", cfg, [mk_line([t1, t2, t3], [d0, d1, d2, d3])])
         elif part == "width":
             # the IPv4 keep-width variant (netstat): singles of every token, pairs with an address in them
@@ -931,7 +1009,7 @@ def run_unit(unit, tier):
 
 TECHNIQUE = ("bounded exhaustive enumeration of token/delimiter lines x single-deviation configurations x entry points, "
              "executed against the real Cleaner; survivor oracle after masking the substitutes reported by mapping()")
-LEVEL_TEXT = ("Every line of <= 2 (quick) / <= 3 (thorough) sensitive tokens over 32 tokens and 13 delimiters (+ word-character neighbours and no delimiter), every content "
+LEVEL_TEXT = ("Every line of <= 2 (quick) / <= 3 (thorough) sensitive tokens over 34 tokens and 13 delimiters (+ word-character neighbours and no delimiter), every content "
               "of <= 2 such lines, under every configuration one switch / one per-spec exemption / one pattern form / one "
               "host-name form away from everything-on, is cleaned by the real code through clean_content, clean_file and "
               "the provider write path, and the output is searched for survivors. No sampling; the claim is 'no survivor "
